@@ -1,6 +1,2037 @@
-//! (stub) — not generated yet.
-use super::{GenFile, Repo};
+//! Translator for `Gen/PubFns.lean` (property C17).
+//!
+//! Rows: every function a client crate can call — `pub fn` of publicly reachable modules,
+//! `pub` inherent methods of public (or signature-leaked) types, methods declared by public
+//! traits (and their supertraits), methods of trait impls on public types, and the `fn`s found
+//! in `macro_rules!` bodies (token scan). Each row: qualified name, `unsafe`?, name ends in
+//! `_unchecked`?, doc has a `# Safety` heading?, `file:line`, and a lifetime skeleton
+//! (region of every reference/Hip/lifetime-parameterised input and output, elision resolved by
+//! the language rules, declared outlives bounds).
+//! Also: the list of sites that MANUFACTURE a lifetime (`transmute`, `from_raw_parts(_mut)`,
+//! `&*p` / `&mut *p` in unsafe context, calls of `*_extended`) in every compiled non-test fn.
+//! Fails closed on anything it does not recognise.
 
-pub fn generate(_repo: &Repo) -> Result<Vec<GenFile>, String> {
-    Ok(vec![])
+use std::collections::{BTreeMap, BTreeSet};
+
+use syn::spanned::Spanned;
+use syn::visit::Visit;
+
+use super::autotraits::{
+    cfg_active, generic_names, lean_string, vis_of, CrateModel, DefKind, Res, Vis,
+};
+use super::repo::{loc, SrcFile};
+use super::{GenFile, Repo, HEADER};
+
+/// Definitions whose first lifetime parameter is the borrow region of a Hip value.
+pub const HIP_DEFS: &[&str] = &[
+    "bytes::raw::HipByt",
+    "string::HipStr",
+    "os_string::HipOsStr",
+    "path::HipPath",
+];
+
+#[derive(Clone, Debug, PartialEq, Eq, PartialOrd, Ord)]
+pub enum Region {
+    Static,
+    Named(String),
+    /// n-th elided lifetime of the fn's inputs
+    Elided(usize),
+    /// n-th anonymous lifetime of the impl header (`'_` or hidden)
+    Anon(usize),
+    /// placeholder: elided lifetime in the output, resolved by the elision rules
+    OutElided,
+}
+
+/// The kernel-friendly key of a string: its UTF-8 bytes read as a big-endian base-256 number
+/// (`Model.PubFns.encKey`). String operations are prohibitively slow in Lean's kernel, so every
+/// comparison the theorems make is on these numbers; the strings are kept for display.
+pub fn key_of(s: &str) -> String {
+    if s.is_empty() {
+        return "0".into();
+    }
+    let mut o = String::from("0x");
+    for b in s.bytes() {
+        o.push_str(&format!("{b:02x}"));
+    }
+    o
+}
+
+impl Region {
+    pub fn lean(&self) -> String {
+        match self {
+            Region::Static => ".static".into(),
+            Region::Named(s) => format!(".named {} /- {} -/", key_of(s), s),
+            Region::Elided(n) => format!(".elided {n}"),
+            Region::Anon(n) => format!(".anon {n}"),
+            Region::OutElided => unreachable!("unresolved output lifetime"),
+        }
+    }
+}
+
+#[derive(Clone, Debug)]
+enum RTy {
+    Ref(Region, Box<RTy>),
+    Adt {
+        hip: bool,
+        lts: Vec<Region>,
+        args: Vec<RTy>,
+    },
+    Compound(Vec<RTy>),
+    Param(String),
+    Opaque(Vec<Region>),
+    Leaf,
+}
+
+#[derive(Clone, Copy, PartialEq, Eq)]
+enum Mode {
+    ImplHeader,
+    Input,
+    Output,
+}
+
+/// Lifetime arity of the types of other crates that occur in signatures WITHOUT written
+/// lifetime arguments (hidden elided lifetimes matter for the skeleton). Fail closed: a type
+/// that is not listed is a translator error.
+fn ext_lifetime_arity(full: &str) -> Option<usize> {
+    const ZERO: &[&str] = &[
+        "alloc::vec::Vec",
+        "alloc::boxed::Box",
+        "alloc::string::String",
+        "alloc::string::FromUtf16Error",
+        "alloc::string::FromUtf8Error",
+        "alloc::borrow::ToOwned",
+        "core::option::Option",
+        "core::result::Result",
+        "core::ops::Range",
+        "core::ops::Bound",
+        "core::cmp::Ordering",
+        "core::str::Utf8Error",
+        "alloc::str::Utf8Error",
+        "core::fmt::Result",
+        "core::fmt::Error",
+        "core::mem::MaybeUninit",
+        "core::mem::ManuallyDrop",
+        "core::ptr::NonNull",
+        "core::alloc::Layout",
+        "core::marker::PhantomData",
+        "core::convert::Infallible",
+        "core::net::SocketAddr",
+        "std::ffi::OsStr",
+        "std::ffi::OsString",
+        "std::path::Path",
+        "std::path::PathBuf",
+        "std::net::SocketAddr",
+        "std::io::Result",
+        "std::io::Error",
+        "std::vec::IntoIter",
+        "alloc::vec::IntoIter",
+        "bstr::BStr",
+        "bstr::BString",
+        "borsh::io::Result",
+        "borsh::io::Error",
+        "core::ffi::c_int",
+    ];
+    const ONE: &[&str] = &[
+        "alloc::borrow::Cow",
+        "core::fmt::Formatter",
+        "core::str::Lines",
+        "core::str::SplitWhitespace",
+        "core::str::SplitAsciiWhitespace",
+        "core::str::Chars",
+        "core::str::CharIndices",
+        "core::str::Bytes",
+        "core::slice::Iter",
+        "core::slice::IterMut",
+    ];
+    if ZERO.contains(&full) {
+        Some(0)
+    } else if ONE.contains(&full) {
+        Some(1)
+    } else {
+        None
+    }
+}
+
+struct SigCx<'a, 'r> {
+    cm: &'a CrateModel<'r>,
+    module: usize,
+    file: &'r SrcFile,
+    type_params: BTreeSet<String>,
+    self_ty: Option<RTy>,
+    mode: Mode,
+    counter: usize,
+    /// lifetimes bound by an enclosing `for<'a>`
+    hrtb: Vec<String>,
+}
+
+impl<'a, 'r> SigCx<'a, 'r> {
+    fn err<T>(&self, span: proc_macro2::Span, msg: &str) -> Result<T, String> {
+        Err(format!("{}: {msg}", loc(self.file, span)))
+    }
+
+    fn fresh(&mut self) -> Region {
+        match self.mode {
+            Mode::ImplHeader => {
+                self.counter += 1;
+                Region::Anon(self.counter - 1)
+            }
+            Mode::Input => {
+                self.counter += 1;
+                Region::Elided(self.counter - 1)
+            }
+            Mode::Output => Region::OutElided,
+        }
+    }
+
+    fn lifetime(&mut self, l: &syn::Lifetime) -> Option<Region> {
+        let n = l.ident.to_string();
+        if n == "_" {
+            Some(self.fresh())
+        } else if n == "static" {
+            Some(Region::Static)
+        } else if self.hrtb.contains(&n) {
+            None
+        } else {
+            Some(Region::Named(format!("'{n}")))
+        }
+    }
+
+    /// Regions written in generic arguments / bounds of an opaque thing.
+    fn regions_in_bounds(
+        &mut self,
+        bounds: &syn::punctuated::Punctuated<syn::TypeParamBound, syn::Token![+]>,
+        out: &mut Vec<Region>,
+        inner: &mut Vec<RTy>,
+    ) -> Result<(), String> {
+        for b in bounds {
+            match b {
+                syn::TypeParamBound::Lifetime(l) => {
+                    if let Some(r) = self.lifetime(l) {
+                        out.push(r)
+                    }
+                }
+                syn::TypeParamBound::Trait(tb) => {
+                    let pushed = if let Some(bl) = &tb.lifetimes {
+                        let mut n = 0;
+                        for p in &bl.lifetimes {
+                            if let syn::GenericParam::Lifetime(lp) = p {
+                                self.hrtb.push(lp.lifetime.ident.to_string());
+                                n += 1;
+                            }
+                        }
+                        n
+                    } else {
+                        0
+                    };
+                    for seg in &tb.path.segments {
+                        match &seg.arguments {
+                            syn::PathArguments::None => {}
+                            // `Fn(A) -> B` sugar: lifetimes inside are higher-ranked, local
+                            syn::PathArguments::Parenthesized(_) => {}
+                            syn::PathArguments::AngleBracketed(ab) => {
+                                for a in &ab.args {
+                                    match a {
+                                        syn::GenericArgument::Lifetime(l) => {
+                                            if let Some(r) = self.lifetime(l) {
+                                                out.push(r)
+                                            }
+                                        }
+                                        syn::GenericArgument::Type(t) => inner.push(self.ty(t)?),
+                                        syn::GenericArgument::AssocType(at) => {
+                                            inner.push(self.ty(&at.ty)?)
+                                        }
+                                        syn::GenericArgument::Const(_) => {}
+                                        syn::GenericArgument::Constraint(c) => {
+                                            self.regions_in_bounds(&c.bounds, out, inner)?
+                                        }
+                                        _ => return self.err(a.span(), "unsupported generic argument"),
+                                    }
+                                }
+                            }
+                        }
+                    }
+                    for _ in 0..pushed {
+                        self.hrtb.pop();
+                    }
+                }
+                _ => return self.err(b.span(), "unsupported bound syntax"),
+            }
+        }
+        Ok(())
+    }
+
+    fn ty(&mut self, t: &syn::Type) -> Result<RTy, String> {
+        match t {
+            syn::Type::Paren(p) => self.ty(&p.elem),
+            syn::Type::Group(p) => self.ty(&p.elem),
+            syn::Type::Reference(r) => {
+                let region = match &r.lifetime {
+                    Some(l) => self.lifetime(l).unwrap_or(Region::Static),
+                    None => self.fresh(),
+                };
+                let inner = self.ty(&r.elem)?;
+                Ok(RTy::Ref(region, Box::new(inner)))
+            }
+            syn::Type::Ptr(p) => Ok(RTy::Compound(vec![self.ty(&p.elem)?])),
+            syn::Type::Slice(s) => Ok(RTy::Compound(vec![self.ty(&s.elem)?])),
+            syn::Type::Array(a) => Ok(RTy::Compound(vec![self.ty(&a.elem)?])),
+            syn::Type::Tuple(tu) => {
+                let mut v = vec![];
+                for e in &tu.elems {
+                    v.push(self.ty(e)?);
+                }
+                Ok(if v.is_empty() { RTy::Leaf } else { RTy::Compound(v) })
+            }
+            syn::Type::Never(_) => Ok(RTy::Leaf),
+            syn::Type::ImplTrait(it) => {
+                let mut regs = vec![];
+                let mut inner = vec![];
+                self.regions_in_bounds(&it.bounds, &mut regs, &mut inner)?;
+                let mut v = vec![RTy::Opaque(regs)];
+                v.extend(inner);
+                Ok(RTy::Compound(v))
+            }
+            syn::Type::TraitObject(to) => {
+                let mut regs = vec![];
+                let mut inner = vec![];
+                self.regions_in_bounds(&to.bounds, &mut regs, &mut inner)?;
+                let mut v = vec![RTy::Opaque(regs)];
+                v.extend(inner);
+                Ok(RTy::Compound(v))
+            }
+            syn::Type::Path(tp) => self.path_ty(tp),
+            _ => self.err(t.span(), "unsupported type syntax in a signature"),
+        }
+    }
+
+    fn generic_args(
+        &mut self,
+        args: &syn::PathArguments,
+        lts: &mut Vec<Region>,
+        tys: &mut Vec<RTy>,
+    ) -> Result<(), String> {
+        match args {
+            syn::PathArguments::None => {}
+            syn::PathArguments::Parenthesized(_) => {}
+            syn::PathArguments::AngleBracketed(ab) => {
+                for a in &ab.args {
+                    match a {
+                        syn::GenericArgument::Lifetime(l) => {
+                            if let Some(r) = self.lifetime(l) {
+                                lts.push(r)
+                            }
+                        }
+                        syn::GenericArgument::Type(t) => {
+                            // a bare upper-case identifier that does not resolve may be a const
+                            // argument (`INLINE_CAPACITY`, `CAP`): tolerate those
+                            match self.ty(t) {
+                                Ok(x) => tys.push(x),
+                                Err(e) => {
+                                    let is_constish = matches!(t, syn::Type::Path(p)
+                                        if p.path.get_ident().map_or(false, |i| {
+                                            let s = i.to_string();
+                                            s.chars().all(|c| c.is_ascii_uppercase() || c == '_' || c.is_ascii_digit())
+                                        }));
+                                    if !is_constish {
+                                        return Err(e);
+                                    }
+                                }
+                            }
+                        }
+                        syn::GenericArgument::AssocType(at) => tys.push(self.ty(&at.ty)?),
+                        syn::GenericArgument::Const(_) => {}
+                        _ => return self.err(a.span(), "unsupported generic argument"),
+                    }
+                }
+            }
+        }
+        Ok(())
+    }
+
+    fn path_ty(&mut self, tp: &syn::TypePath) -> Result<RTy, String> {
+        let p = &tp.path;
+        let span = tp.span();
+        // associated-type projections: `<T as Tr<'a>>::Out`, `P::Split<'_>`, `Self::Item`
+        let first = p.segments[0].ident.to_string();
+        let first_is_param =
+            p.leading_colon.is_none() && (self.type_params.contains(&first) || first == "Self");
+        if tp.qself.is_some() || (first_is_param && p.segments.len() > 1) {
+            let mut regs = vec![];
+            let mut inner = vec![];
+            if let Some(q) = &tp.qself {
+                inner.push(self.ty(&q.ty)?);
+            }
+            for seg in &p.segments {
+                self.generic_args(&seg.arguments, &mut regs, &mut inner)?;
+            }
+            let mut v = vec![RTy::Opaque(regs)];
+            v.extend(inner);
+            return Ok(RTy::Compound(v));
+        }
+        if first_is_param && p.segments.len() == 1 {
+            if first == "Self" {
+                return match &self.self_ty {
+                    Some(s) => Ok(s.clone()),
+                    None => Ok(RTy::Param("Self".into())),
+                };
+            }
+            return Ok(RTy::Param(first));
+        }
+        let (res, rest) = self
+            .cm
+            .resolve_syn(self.module, p)
+            .map_err(|e| format!("{}: {e}", loc(self.file, span)))?;
+        let mut lts = vec![];
+        let mut args = vec![];
+        for seg in &p.segments {
+            self.generic_args(&seg.arguments, &mut lts, &mut args)?;
+        }
+        match res {
+            Res::Prim(_) => Ok(RTy::Leaf),
+            Res::External(path) => {
+                let full = path.join("::");
+                let arity = {
+                    let mut found = ext_lifetime_arity(&full);
+                    if let Some((first, r)) = full.split_once("::") {
+                        if matches!(first, "std" | "alloc" | "core") {
+                            for pre in ["core", "alloc", "std"] {
+                                found = found.or(ext_lifetime_arity(&format!("{pre}::{r}")));
+                            }
+                        }
+                    }
+                    found
+                };
+                if lts.is_empty() {
+                    match arity {
+                        Some(n) => {
+                            for _ in 0..n {
+                                let r = self.fresh();
+                                lts.push(r);
+                            }
+                        }
+                        None => {
+                            return self.err(
+                                span,
+                                &format!("lifetime arity of foreign type `{full}` unknown (add it to ext_lifetime_arity)"),
+                            )
+                        }
+                    }
+                }
+                Ok(RTy::Adt {
+                    hip: false,
+                    lts,
+                    args,
+                })
+            }
+            Res::Def(d) => {
+                if !rest.is_empty() {
+                    return self.err(span, "path into a local item's associated items in a signature");
+                }
+                match &self.cm.defs[d].kind {
+                    DefKind::Struct(_) | DefKind::Enum(_) | DefKind::Union(_) => {
+                        let (_, n_lt, _) = generic_names(self.cm.generics_of(d).unwrap());
+                        if lts.is_empty() {
+                            for _ in 0..n_lt {
+                                let r = self.fresh();
+                                lts.push(r);
+                            }
+                        } else if lts.len() != n_lt {
+                            return self.err(span, "lifetime argument count mismatch");
+                        }
+                        let hip = HIP_DEFS.contains(&self.cm.def_path(d).as_str());
+                        Ok(RTy::Adt { hip, lts, args })
+                    }
+                    DefKind::Alias(a) => {
+                        let (_, n_lt, _) = generic_names(&a.generics);
+                        if n_lt != 0 {
+                            // `crate::HipStr<'a>` style aliases: expand by hand
+                            let dm = self.cm.defs[d].module;
+                            let mut sub = SigCx {
+                                cm: self.cm,
+                                module: dm,
+                                file: self.cm.modules[dm].file,
+                                type_params: generic_names(&a.generics).0.into_iter().collect(),
+                                self_ty: None,
+                                mode: Mode::ImplHeader,
+                                counter: 0,
+                                hrtb: vec![],
+                            };
+                            let body = sub.ty(&a.ty)?;
+                            if lts.is_empty() {
+                                for _ in 0..n_lt {
+                                    let r = self.fresh();
+                                    lts.push(r);
+                                }
+                            }
+                            // substitute the alias' named lifetimes positionally
+                            let names: Vec<String> = a
+                                .generics
+                                .lifetimes()
+                                .map(|l| format!("'{}", l.lifetime.ident))
+                                .collect();
+                            fn sub_r(t: &RTy, names: &[String], lts: &[Region]) -> RTy {
+                                let r = |x: &Region| match x {
+                                    Region::Named(n) => names
+                                        .iter()
+                                        .position(|m| m == n)
+                                        .map_or(x.clone(), |i| lts[i].clone()),
+                                    o => o.clone(),
+                                };
+                                match t {
+                                    RTy::Ref(x, i) => RTy::Ref(r(x), Box::new(sub_r(i, names, lts))),
+                                    RTy::Adt { hip, lts: l, args } => RTy::Adt {
+                                        hip: *hip,
+                                        lts: l.iter().map(&r).collect(),
+                                        args: args.iter().map(|a| sub_r(a, names, lts)).collect(),
+                                    },
+                                    RTy::Compound(v) => {
+                                        RTy::Compound(v.iter().map(|a| sub_r(a, names, lts)).collect())
+                                    }
+                                    RTy::Opaque(v) => RTy::Opaque(v.iter().map(&r).collect()),
+                                    o => o.clone(),
+                                }
+                            }
+                            if names.len() != lts.len() {
+                                return self.err(span, "alias lifetime argument count mismatch");
+                            }
+                            return Ok(RTy::Compound(vec![sub_r(&body, &names, &lts), RTy::Compound(args)]));
+                        }
+                        let dm = self.cm.defs[d].module;
+                        let mut sub = SigCx {
+                            cm: self.cm,
+                            module: dm,
+                            file: self.cm.modules[dm].file,
+                            type_params: generic_names(&a.generics).0.into_iter().collect(),
+                            self_ty: None,
+                            mode: self.mode,
+                            counter: self.counter,
+                            hrtb: vec![],
+                        };
+                        let body = sub.ty(&a.ty)?;
+                        self.counter = sub.counter;
+                        Ok(RTy::Compound(vec![body, RTy::Compound(args)]))
+                    }
+                    DefKind::Trait(_) => self.err(span, "bare trait used as a type"),
+                    _ => self.err(span, "path does not name a type"),
+                }
+            }
+        }
+    }
+}
+
+#[derive(Clone, Copy, PartialEq, Eq, Debug)]
+pub enum Role {
+    SelfRef,
+    SelfHip,
+    SelfOther,
+    ArgRef,
+    ArgHip,
+    ArgOther,
+}
+
+impl Role {
+    fn lean(self) -> &'static str {
+        match self {
+            Role::SelfRef => ".selfRef",
+            Role::SelfHip => ".selfHip",
+            Role::SelfOther => ".selfOther",
+            Role::ArgRef => ".argRef",
+            Role::ArgHip => ".argHip",
+            Role::ArgOther => ".argOther",
+        }
+    }
+}
+
+#[derive(Clone, Copy, PartialEq, Eq, Debug)]
+pub enum Pos {
+    Ref,
+    Hip,
+    Other,
+}
+
+impl Pos {
+    fn lean(self) -> &'static str {
+        match self {
+            Pos::Ref => ".ref",
+            Pos::Hip => ".hip",
+            Pos::Other => ".other",
+        }
+    }
+}
+
+fn walk_in(
+    t: &RTy,
+    is_self: bool,
+    bounds: &BTreeMap<String, Vec<Region>>,
+    out: &mut Vec<(Role, Region)>,
+) {
+    let (r_ref, r_hip, r_other) = if is_self {
+        (Role::SelfOther, Role::SelfHip, Role::SelfOther)
+    } else {
+        (Role::ArgRef, Role::ArgHip, Role::ArgOther)
+    };
+    match t {
+        RTy::Ref(r, i) => {
+            out.push((r_ref, r.clone()));
+            walk_in(i, is_self, bounds, out);
+        }
+        RTy::Adt { hip, lts, args } => {
+            for (k, r) in lts.iter().enumerate() {
+                out.push((if *hip && k == 0 { r_hip } else { r_other }, r.clone()));
+            }
+            for a in args {
+                walk_in(a, is_self, bounds, out);
+            }
+        }
+        RTy::Compound(v) => {
+            for a in v {
+                walk_in(a, is_self, bounds, out);
+            }
+        }
+        RTy::Param(p) => {
+            if let Some(rs) = bounds.get(p) {
+                for r in rs {
+                    out.push((r_other, r.clone()));
+                }
+            }
+        }
+        RTy::Opaque(rs) => {
+            for r in rs {
+                out.push((r_other, r.clone()));
+            }
+        }
+        RTy::Leaf => {}
+    }
+}
+
+fn walk_out(t: &RTy, out: &mut Vec<(Pos, Region)>) {
+    match t {
+        RTy::Ref(r, i) => {
+            out.push((Pos::Ref, r.clone()));
+            walk_out(i, out);
+        }
+        RTy::Adt { hip, lts, args } => {
+            for (k, r) in lts.iter().enumerate() {
+                out.push((if *hip && k == 0 { Pos::Hip } else { Pos::Other }, r.clone()));
+            }
+            for a in args {
+                walk_out(a, out);
+            }
+        }
+        RTy::Compound(v) => {
+            for a in v {
+                walk_out(a, out);
+            }
+        }
+        RTy::Opaque(rs) => {
+            for r in rs {
+                out.push((Pos::Other, r.clone()));
+            }
+        }
+        RTy::Param(_) | RTy::Leaf => {}
+    }
+}
+
+fn syntactic_regions(t: &RTy, out: &mut BTreeSet<Region>) {
+    match t {
+        RTy::Ref(r, i) => {
+            out.insert(r.clone());
+            syntactic_regions(i, out);
+        }
+        RTy::Adt { lts, args, .. } => {
+            out.extend(lts.iter().cloned());
+            for a in args {
+                syntactic_regions(a, out);
+            }
+        }
+        RTy::Compound(v) => {
+            for a in v {
+                syntactic_regions(a, out);
+            }
+        }
+        RTy::Opaque(rs) => out.extend(rs.iter().cloned()),
+        RTy::Param(_) | RTy::Leaf => {}
+    }
+}
+
+/// Named lifetimes mentioned by the bounds of type parameters, and declared outlives pairs.
+fn scan_generics(
+    g: &syn::Generics,
+    bounds: &mut BTreeMap<String, Vec<Region>>,
+    outlives: &mut Vec<(Region, Region)>,
+) {
+    struct LV {
+        found: Vec<Region>,
+        skip: Vec<String>,
+    }
+    impl<'ast> Visit<'ast> for LV {
+        fn visit_lifetime(&mut self, l: &'ast syn::Lifetime) {
+            let n = l.ident.to_string();
+            if n == "_" || self.skip.contains(&n) {
+                return;
+            }
+            self.found.push(if n == "static" {
+                Region::Static
+            } else {
+                Region::Named(format!("'{n}"))
+            });
+        }
+        fn visit_bound_lifetimes(&mut self, b: &'ast syn::BoundLifetimes) {
+            for p in &b.lifetimes {
+                if let syn::GenericParam::Lifetime(lp) = p {
+                    self.skip.push(lp.lifetime.ident.to_string());
+                }
+            }
+        }
+        fn visit_parenthesized_generic_arguments(&mut self, _: &'ast syn::ParenthesizedGenericArguments) {}
+    }
+    let reg = |l: &syn::Lifetime| {
+        let n = l.ident.to_string();
+        if n == "static" {
+            Region::Static
+        } else {
+            Region::Named(format!("'{n}"))
+        }
+    };
+    for p in &g.params {
+        match p {
+            syn::GenericParam::Type(t) => {
+                let mut v = LV { found: vec![], skip: vec![] };
+                for b in &t.bounds {
+                    v.visit_type_param_bound(b);
+                }
+                bounds.entry(t.ident.to_string()).or_default().extend(v.found);
+            }
+            syn::GenericParam::Lifetime(l) => {
+                for b in &l.bounds {
+                    outlives.push((reg(&l.lifetime), reg(b)));
+                }
+            }
+            syn::GenericParam::Const(_) => {}
+        }
+    }
+    if let Some(wc) = &g.where_clause {
+        for pred in &wc.predicates {
+            match pred {
+                syn::WherePredicate::Lifetime(pl) => {
+                    for b in &pl.bounds {
+                        outlives.push((reg(&pl.lifetime), reg(b)));
+                    }
+                }
+                syn::WherePredicate::Type(pt) => {
+                    let mut v = LV { found: vec![], skip: vec![] };
+                    if let Some(bl) = &pt.lifetimes {
+                        v.visit_bound_lifetimes(bl);
+                    }
+                    for b in &pt.bounds {
+                        v.visit_type_param_bound(b);
+                    }
+                    // key: the leading identifier of the bounded type (`S::Item: …` → `S`)
+                    let key = match &pt.bounded_ty {
+                        syn::Type::Path(tp) => tp.path.segments.first().map(|s| s.ident.to_string()),
+                        _ => None,
+                    };
+                    if let Some(k) = key {
+                        bounds.entry(k).or_default().extend(v.found);
+                    }
+                }
+                _ => {}
+            }
+        }
+    }
+}
+
+pub struct FnRow {
+    pub name: String,
+    pub simple: String,
+    pub kind: &'static str,
+    pub is_unsafe: bool,
+    pub name_unchecked: bool,
+    pub has_safety_doc: bool,
+    pub ins: Vec<(Role, Region)>,
+    pub outs: Vec<(Pos, Region)>,
+    pub outlives: Vec<(Region, Region)>,
+    pub loc: String,
+    /// For rows that must be `unsafe`: a client-side call (see `probe`), or why none exists.
+    pub probe: Result<ProbeCall, String>,
+    /// For safe methods taking `&self`/`&mut self` whose result carries a region: a client
+    /// program that lets the result outlive a LOCAL receiver (every other lifetime is `'static`),
+    /// and the skeleton's prediction of rustc's verdict. `None` = not applicable.
+    pub self_escape: Option<Result<SelfEscape, String>>,
+}
+
+#[derive(Clone, Debug)]
+pub struct SelfEscape {
+    pub generics: String,
+    /// type of the local receiver
+    pub recv_ty: String,
+    pub recv_mut: bool,
+    /// `<T>::f` / `<T as Trait>::f`
+    pub callee: String,
+    /// the arguments after the receiver
+    pub args: Vec<String>,
+    /// the skeleton ties an output region to the `&self` borrow ⇒ rustc must reject
+    pub predicted_reject: bool,
+}
+
+#[derive(Clone, Debug)]
+pub struct ProbeCall {
+    /// generic parameter list of the probing fn (`<SelfTy: hipstr::…::MutVector>` or empty)
+    pub generics: String,
+    /// the call expression, NOT wrapped in `unsafe`
+    pub call: String,
+}
+
+/// The enclosing impl/trait of a method.
+struct Owner<'a> {
+    /// row-name prefix (`string::HipStr`, `<string::HipStr as From<&str>>`)
+    prefix: String,
+    kind: &'static str,
+    generics: Vec<&'a syn::Generics>,
+    self_ty: Option<RTy>,
+    self_syn: Option<&'a syn::Type>,
+    /// trait path for trait decl / trait impl probes
+    trait_path: Option<syn::Path>,
+    is_trait_decl: bool,
+    anon_count: usize,
+}
+
+fn has_safety_heading(attrs: &[syn::Attribute]) -> bool {
+    for a in attrs {
+        if a.path().is_ident("doc") {
+            if let syn::Meta::NameValue(nv) = &a.meta {
+                if let syn::Expr::Lit(syn::ExprLit {
+                    lit: syn::Lit::Str(s),
+                    ..
+                }) = &nv.value
+                {
+                    for line in s.value().lines() {
+                        let t = line.trim_start();
+                        if t.starts_with('#') && t.trim_start_matches('#').trim() == "Safety" {
+                            return true;
+                        }
+                    }
+                }
+            }
+        }
+    }
+    false
+}
+
+fn norm_tokens(t: &impl quote::ToTokens) -> String {
+    let s = t.to_token_stream().to_string();
+    // proc-macro2 prints tokens separated by single spaces: tighten the common cases
+    s.replace(" :: ", "::")
+        .replace(":: ", "::")
+        .replace(" ::", "::")
+        .replace(" < ", "<")
+        .replace("< ", "<")
+        .replace(" <", "<")
+        .replace(" >", ">")
+        .replace("& ", "&")
+        .replace(" ,", ",")
+        .replace("' ", "'")
+}
+
+// ---------------------------------------------------------------------------------------------
+// lifetime skeleton of one signature
+// ---------------------------------------------------------------------------------------------
+
+struct Skeleton {
+    self_ref: Option<Region>,
+    ins: Vec<(Role, Region)>,
+    outs: Vec<(Pos, Region)>,
+    outlives: Vec<(Region, Region)>,
+}
+
+fn skeleton(
+    cm: &CrateModel,
+    module: usize,
+    file: &SrcFile,
+    owner: &Owner,
+    sig: &syn::Signature,
+) -> Result<Skeleton, String> {
+    let mut bounds: BTreeMap<String, Vec<Region>> = BTreeMap::new();
+    let mut outlives = vec![];
+    let mut type_params: BTreeSet<String> = BTreeSet::new();
+    for g in owner.generics.iter().copied().chain(std::iter::once(&sig.generics)) {
+        scan_generics(g, &mut bounds, &mut outlives);
+        type_params.extend(generic_names(g).0);
+    }
+    let mut cx = SigCx {
+        cm,
+        module,
+        file,
+        type_params,
+        self_ty: owner.self_ty.clone(),
+        mode: Mode::Input,
+        counter: 0,
+        hrtb: vec![],
+    };
+    let mut ins: Vec<(Role, Region)> = vec![];
+    let mut syntactic: BTreeSet<Region> = BTreeSet::new();
+    let mut self_ref_region: Option<Region> = None;
+    for arg in &sig.inputs {
+        match arg {
+            syn::FnArg::Receiver(r) => {
+                if r.colon_token.is_some() {
+                    // `self: T` — treat the written type as the receiver
+                    let t = cx.ty(&r.ty)?;
+                    if let RTy::Ref(reg, _) = &t {
+                        self_ref_region = Some(reg.clone());
+                        ins.push((Role::SelfRef, reg.clone()));
+                        syntactic.insert(reg.clone());
+                    }
+                    let inner = match &t {
+                        RTy::Ref(_, i) => (**i).clone(),
+                        o => o.clone(),
+                    };
+                    walk_in(&inner, true, &bounds, &mut ins);
+                } else {
+                    if let Some((_, lt)) = &r.reference {
+                        let reg = match lt {
+                            Some(l) => cx.lifetime(l).unwrap_or(Region::Static),
+                            None => cx.fresh(),
+                        };
+                        self_ref_region = Some(reg.clone());
+                        syntactic.insert(reg.clone());
+                        ins.push((Role::SelfRef, reg));
+                    }
+                    match &owner.self_ty {
+                        Some(s) => walk_in(s, true, &bounds, &mut ins),
+                        None => walk_in(&RTy::Param("Self".into()), true, &bounds, &mut ins),
+                    }
+                }
+            }
+            syn::FnArg::Typed(pt) => {
+                let t = cx.ty(&pt.ty)?;
+                syntactic_regions(&t, &mut syntactic);
+                walk_in(&t, false, &bounds, &mut ins);
+            }
+        }
+    }
+    let mut outs = vec![];
+    if let syn::ReturnType::Type(_, t) = &sig.output {
+        cx.mode = Mode::Output;
+        let rt = cx.ty(t)?;
+        walk_out(&rt, &mut outs);
+    }
+    if outs.iter().any(|(_, r)| *r == Region::OutElided) {
+        let chosen = if let Some(r) = &self_ref_region {
+            r.clone()
+        } else if syntactic.len() == 1 {
+            syntactic.iter().next().unwrap().clone()
+        } else {
+            return Err(format!(
+                "{}: cannot resolve the elided output lifetime of `{}` ({} candidate input lifetimes)",
+                loc(file, sig.ident.span()),
+                sig.ident,
+                syntactic.len()
+            ));
+        };
+        for o in &mut outs {
+            if o.1 == Region::OutElided {
+                o.1 = chosen.clone();
+            }
+        }
+    }
+    // dedup, keep order
+    let mut seen = vec![];
+    ins.retain(|x| {
+        if seen.contains(x) {
+            false
+        } else {
+            seen.push(x.clone());
+            true
+        }
+    });
+    let mut seen_o = vec![];
+    outs.retain(|x| {
+        if seen_o.contains(x) {
+            false
+        } else {
+            seen_o.push(x.clone());
+            true
+        }
+    });
+    Ok(Skeleton {
+        self_ref: self_ref_region,
+        ins,
+        outs,
+        outlives,
+    })
+}
+
+// ---------------------------------------------------------------------------------------------
+// client-side probe calls for rows that must be `unsafe`
+// ---------------------------------------------------------------------------------------------
+
+struct ProbeCx<'a, 'r> {
+    cm: &'a CrateModel<'r>,
+    module: usize,
+    /// substitution of generic identifiers (types and consts)
+    subst: BTreeMap<String, String>,
+    self_str: Option<String>,
+}
+
+fn bound_names(bs: &syn::punctuated::Punctuated<syn::TypeParamBound, syn::Token![+]>) -> Vec<String> {
+    bs.iter()
+        .filter_map(|b| match b {
+            syn::TypeParamBound::Trait(t) => Some(norm_tokens(&t.path)),
+            _ => None,
+        })
+        .collect()
+}
+
+/// A concrete type for a generic parameter / `impl Trait` with the given bounds.
+fn witness_for(bounds: &[String]) -> Result<String, String> {
+    let has = |s: &str| bounds.iter().any(|b| b == s || b.ends_with(&format!("::{s}")));
+    if has("Backend") {
+        return Ok("::hipstr::Arc".into());
+    }
+    if has("RangeBounds<usize>") {
+        return Ok("::core::ops::RangeFull".into());
+    }
+    if has("Pattern") || has("ReversePattern") || has("DoubleEndedPattern") {
+        return Ok("char".into());
+    }
+    if has("MutVector") || has("Vector") {
+        return Ok("::hipstr::vecs::ThinVec<u8>".into());
+    }
+    if has("AsRef<OsStr>") || has("AsRef<Path>") || has("AsRef<str>") {
+        return Ok("&'static str".into());
+    }
+    if has("AsRef<[u8]>") {
+        return Ok("&'static [u8]".into());
+    }
+    for b in bounds {
+        let simple = b.rsplit("::").next().unwrap_or(b);
+        if !matches!(
+            simple,
+            "Clone" | "Copy" | "Default" | "Sized" | "PartialEq" | "Eq" | "PartialOrd" | "Ord" | "Debug" | "Hash"
+        ) {
+            return Err(format!("no witness type for a parameter bounded by `{b}`"));
+        }
+    }
+    Ok("u8".into())
+}
+
+impl<'a, 'r> ProbeCx<'a, 'r> {
+    fn add_generics(&mut self, g: &syn::Generics) -> Result<(), String> {
+        let mut bounds: BTreeMap<String, Vec<String>> = BTreeMap::new();
+        for p in &g.params {
+            match p {
+                syn::GenericParam::Type(t) => {
+                    bounds.entry(t.ident.to_string()).or_default().extend(bound_names(&t.bounds));
+                }
+                syn::GenericParam::Const(c) => {
+                    let ty = norm_tokens(&c.ty);
+                    let v = match ty.as_str() {
+                        "usize" => "7",
+                        "u8" => "1",
+                        other => return Err(format!("no witness for a const parameter of type `{other}`")),
+                    };
+                    self.subst.insert(c.ident.to_string(), v.to_string());
+                }
+                syn::GenericParam::Lifetime(_) => {}
+            }
+        }
+        if let Some(wc) = &g.where_clause {
+            for pred in &wc.predicates {
+                if let syn::WherePredicate::Type(pt) = pred {
+                    if let syn::Type::Path(tp) = &pt.bounded_ty {
+                        if let Some(id) = tp.path.get_ident() {
+                            bounds.entry(id.to_string()).or_default().extend(bound_names(&pt.bounds));
+                        }
+                    }
+                }
+            }
+        }
+        for (name, bs) in bounds {
+            self.subst.insert(name, witness_for(&bs)?);
+        }
+        Ok(())
+    }
+
+    fn path_prefix(&self, p: &syn::Path) -> Result<String, String> {
+        let (res, rest) = self.cm.resolve_syn(self.module, p)?;
+        if !rest.is_empty() {
+            return Err(format!("cannot print path `{}`", norm_tokens(p)));
+        }
+        match res {
+            Res::Prim(n) => Ok(n),
+            Res::External(path) => Ok(format!("::{}", path.join("::"))),
+            Res::Def(d) => match &self.cm.defs[d].public_path {
+                Some(pp) => Ok(format!("::hipstr::{}", pp.join("::"))),
+                None => Err(format!("`{}` has no public path", self.cm.def_path(d))),
+            },
+        }
+    }
+
+    fn args(&self, a: &syn::PathArguments) -> Result<String, String> {
+        match a {
+            syn::PathArguments::None => Ok(String::new()),
+            syn::PathArguments::Parenthesized(_) => Err("Fn-sugar in a probe type".into()),
+            syn::PathArguments::AngleBracketed(ab) => {
+                let mut v = vec![];
+                for x in &ab.args {
+                    match x {
+                        syn::GenericArgument::Lifetime(_) => v.push("'static".to_string()),
+                        syn::GenericArgument::Type(t) => {
+                            // const arguments parse as type paths: substitute when known
+                            if let syn::Type::Path(tp) = t {
+                                if let Some(id) = tp.path.get_ident() {
+                                    if let Some(s) = self.subst.get(&id.to_string()) {
+                                        v.push(s.clone());
+                                        continue;
+                                    }
+                                }
+                            }
+                            v.push(self.ty(t)?)
+                        }
+                        syn::GenericArgument::Const(e) => v.push(format!("{{ {} }}", norm_tokens(e))),
+                        _ => return Err("unsupported generic argument in a probe type".into()),
+                    }
+                }
+                Ok(format!("<{}>", v.join(", ")))
+            }
+        }
+    }
+
+    fn ty(&self, t: &syn::Type) -> Result<String, String> {
+        match t {
+            syn::Type::Paren(p) => self.ty(&p.elem),
+            syn::Type::Group(p) => self.ty(&p.elem),
+            syn::Type::Reference(r) => Ok(format!(
+                "&'static {}{}",
+                if r.mutability.is_some() { "mut " } else { "" },
+                self.ty(&r.elem)?
+            )),
+            syn::Type::Ptr(p) => Ok(format!(
+                "*{} {}",
+                if p.mutability.is_some() { "mut" } else { "const" },
+                self.ty(&p.elem)?
+            )),
+            syn::Type::Slice(s) => Ok(format!("[{}]", self.ty(&s.elem)?)),
+            syn::Type::Array(a) => {
+                let len = norm_tokens(&a.len);
+                let len = self.subst.get(&len).cloned().unwrap_or(len);
+                Ok(format!("[{}; {}]", self.ty(&a.elem)?, len))
+            }
+            syn::Type::Tuple(tu) => {
+                let v: Result<Vec<_>, _> = tu.elems.iter().map(|e| self.ty(e)).collect();
+                let v = v?;
+                Ok(if v.len() == 1 {
+                    format!("({},)", v[0])
+                } else {
+                    format!("({})", v.join(", "))
+                })
+            }
+            syn::Type::ImplTrait(it) => witness_for(&bound_names(&it.bounds)),
+            syn::Type::Path(tp) => {
+                if tp.qself.is_some() {
+                    return Err("qualified path in a probe type".into());
+                }
+                let p = &tp.path;
+                if let Some(id) = p.get_ident() {
+                    let s = id.to_string();
+                    if s == "Self" {
+                        return self.self_str.clone().ok_or_else(|| "Self without a self type".to_string());
+                    }
+                    if let Some(w) = self.subst.get(&s) {
+                        return Ok(w.clone());
+                    }
+                }
+                let first = p.segments[0].ident.to_string();
+                if p.segments.len() > 1 && (first == "Self" || self.subst.contains_key(&first)) {
+                    return Err(format!("associated type `{}` in a probe type", norm_tokens(p)));
+                }
+                let mut bare = p.clone();
+                for s in bare.segments.iter_mut() {
+                    s.arguments = syn::PathArguments::None;
+                }
+                let prefix = self.path_prefix(&bare)?;
+                let args = self.args(&p.segments.last().unwrap().arguments)?;
+                Ok(format!("{prefix}{args}"))
+            }
+            _ => Err("unsupported type syntax in a probe type".into()),
+        }
+    }
+}
+
+fn make_probe(
+    cm: &CrateModel,
+    module: usize,
+    owner: &Owner,
+    sig: &syn::Signature,
+) -> Result<ProbeCall, String> {
+    let (generics, callee, _recv, args) = probe_parts(cm, module, owner, sig)?;
+    Ok(ProbeCall {
+        generics,
+        call: format!("{callee}({})", args.join(", ")),
+    })
+}
+
+/// (generics of the probing fn, callee path, receiver type if any, `any::<T>()` per argument
+/// — the receiver included, first)
+fn probe_parts(
+    cm: &CrateModel,
+    module: usize,
+    owner: &Owner,
+    sig: &syn::Signature,
+) -> Result<(String, String, Option<String>, Vec<String>), String> {
+    let mut pc = ProbeCx {
+        cm,
+        module,
+        subst: BTreeMap::new(),
+        self_str: None,
+    };
+    for g in &owner.generics {
+        pc.add_generics(g)?;
+    }
+    pc.add_generics(&sig.generics)?;
+    let mut generics = String::new();
+    let callee: String;
+    if owner.is_trait_decl {
+        let tp = owner.trait_path.as_ref().ok_or("trait decl without a usable path (generic trait)")?;
+        let tpath = pc.path_prefix(tp)?;
+        generics = format!("<SelfTy: {tpath} + 'static>");
+        pc.self_str = Some("SelfTy".into());
+        callee = format!("<SelfTy as {tpath}>::{}", sig.ident);
+    } else if let Some(st) = owner.self_syn {
+        let s = pc.ty(st)?;
+        pc.self_str = Some(s.clone());
+        callee = match &owner.trait_path {
+            Some(tp) => {
+                let mut bare = tp.clone();
+                let last_args = bare.segments.last().unwrap().arguments.clone();
+                for sgm in bare.segments.iter_mut() {
+                    sgm.arguments = syn::PathArguments::None;
+                }
+                format!("<{s} as {}{}>::{}", pc.path_prefix(&bare)?, pc.args(&last_args)?, sig.ident)
+            }
+            None => format!("<{s}>::{}", sig.ident),
+        };
+    } else {
+        // free function: `hipstr::path::to::f`
+        let here = &cm.modules[module];
+        let pp = here
+            .public_path
+            .clone()
+            .ok_or_else(|| "free fn in a module without a public path".to_string())?;
+        let mut p = vec!["::hipstr".to_string()];
+        p.extend(pp);
+        p.push(sig.ident.to_string());
+        callee = p.join("::");
+    }
+    let mut args = vec![];
+    for a in &sig.inputs {
+        match a {
+            syn::FnArg::Receiver(r) => {
+                let s = pc.self_str.clone().ok_or("receiver without a self type")?;
+                if r.colon_token.is_some() {
+                    args.push(format!("any::<{}>()", pc.ty(&r.ty)?));
+                } else if r.reference.is_some() {
+                    args.push(format!(
+                        "any::<&'static {}{s}>()",
+                        if r.mutability.is_some() { "mut " } else { "" }
+                    ));
+                } else {
+                    args.push(format!("any::<{s}>()"));
+                }
+            }
+            syn::FnArg::Typed(pt) => args.push(format!("any::<{}>()", pc.ty(&pt.ty)?)),
+        }
+    }
+    Ok((generics, callee, pc.self_str.clone(), args))
+}
+
+// ---------------------------------------------------------------------------------------------
+// which functions can a client call?
+// ---------------------------------------------------------------------------------------------
+
+/// Local ADTs named by a signature (for the "leaked through a public signature" closure).
+fn adts_in_sig(cm: &CrateModel, module: usize, sig: &syn::Signature, out: &mut BTreeSet<usize>) {
+    struct V<'a, 'r> {
+        cm: &'a CrateModel<'r>,
+        module: usize,
+        out: &'a mut BTreeSet<usize>,
+    }
+    impl<'ast, 'a, 'r> Visit<'ast> for V<'a, 'r> {
+        fn visit_type_path(&mut self, tp: &'ast syn::TypePath) {
+            if tp.qself.is_none() {
+                let mut bare = tp.path.clone();
+                for s in bare.segments.iter_mut() {
+                    s.arguments = syn::PathArguments::None;
+                }
+                if let Ok((Res::Def(d), rest)) = self.cm.resolve_syn(self.module, &bare) {
+                    if rest.is_empty() && self.cm.is_adt(d) && self.cm.defs[d].vis == Vis::Pub {
+                        self.out.insert(d);
+                    }
+                }
+            }
+            syn::visit::visit_type_path(self, tp);
+        }
+    }
+    let mut v = V { cm, module, out };
+    v.visit_signature(sig);
+}
+
+fn impl_self_adt(cm: &CrateModel, module: usize, im: &syn::ItemImpl) -> Option<usize> {
+    if let syn::Type::Path(tp) = &*im.self_ty {
+        if tp.qself.is_none() {
+            let mut bare = tp.path.clone();
+            for s in bare.segments.iter_mut() {
+                s.arguments = syn::PathArguments::None;
+            }
+            if let Ok((Res::Def(d), rest)) = cm.resolve_syn(module, &bare) {
+                if rest.is_empty() && cm.is_adt(d) {
+                    return Some(d);
+                }
+            }
+        }
+    }
+    None
+}
+
+fn bare_path(p: &syn::Path) -> syn::Path {
+    let mut bare = p.clone();
+    for s in bare.segments.iter_mut() {
+        s.arguments = syn::PathArguments::None;
+    }
+    bare
+}
+
+pub struct Collected {
+    pub rows: Vec<FnRow>,
+    pub sites: Vec<Site>,
+}
+
+fn make_row(
+    cm: &CrateModel,
+    module: usize,
+    file: &SrcFile,
+    owner: &Owner,
+    sig: &syn::Signature,
+    attrs: &[syn::Attribute],
+) -> Result<FnRow, String> {
+    let sk = skeleton(cm, module, file, owner, sig)?;
+    let simple = sig.ident.to_string();
+    let is_unsafe = sig.unsafety.is_some();
+    let name_unchecked = simple.ends_with("_unchecked");
+    let has_safety_doc = has_safety_heading(attrs);
+    let probe = if is_unsafe || name_unchecked || has_safety_doc {
+        make_probe(cm, module, owner, sig)
+    } else {
+        Err("not needed".into())
+    };
+    let ref_receiver = matches!(sig.inputs.first(), Some(syn::FnArg::Receiver(r)) if r.reference.is_some() && r.colon_token.is_none());
+    let self_escape = if !is_unsafe
+        && ref_receiver
+        && !sk.outs.is_empty()
+        && (owner.kind == ".inherent" || owner.kind == ".traitImpl")
+    {
+        Some(probe_parts(cm, module, owner, sig).and_then(|(generics, callee, recv, args)| {
+            if !["<::hipstr", "<&", "<::core", "<::alloc", "<::std"].iter().any(|p| callee.starts_with(p))
+                || callee.contains("::borsh::")
+                || callee.contains("::bstr::")
+            {
+                return Err(format!("callee `{callee}` needs crates the probe workspace does not depend on"));
+            }
+            if callee.contains(" as ::serde") || callee.contains(" as ::borsh") || callee.contains(" as ::bstr") {
+                return Err(format!("callee `{callee}` is a method of a foreign-crate trait"));
+            }
+            let recv_ty = recv.ok_or("no receiver type")?;
+            let recv_mut = matches!(sig.inputs.first(), Some(syn::FnArg::Receiver(r)) if r.mutability.is_some());
+            let predicted_reject = match &sk.self_ref {
+                Some(r) => sk.outs.iter().any(|(_, o)| o == r),
+                None => false,
+            };
+            Ok(SelfEscape {
+                generics,
+                recv_ty,
+                recv_mut,
+                callee,
+                args: args[1..].to_vec(),
+                predicted_reject,
+            })
+        }))
+    } else {
+        None
+    };
+    Ok(FnRow {
+        self_escape,
+        name: if owner.prefix.is_empty() {
+            simple.clone()
+        } else {
+            format!("{}::{}", owner.prefix, simple)
+        },
+        simple,
+        kind: owner.kind,
+        is_unsafe,
+        name_unchecked,
+        has_safety_doc,
+        ins: sk.ins,
+        outs: sk.outs,
+        outlives: sk.outlives,
+        loc: loc(file, sig.ident.span()),
+        probe,
+    })
+}
+
+/// `fn` definitions inside a `macro_rules!` body (token scan; no signature available).
+fn macro_rows(prefix: &str, file: &SrcFile, ts: proc_macro2::TokenStream, rows: &mut Vec<FnRow>) {
+    use proc_macro2::TokenTree as TT;
+    let toks: Vec<TT> = ts.into_iter().collect();
+    for (i, t) in toks.iter().enumerate() {
+        if let TT::Group(g) = t {
+            macro_rows(prefix, file, g.stream(), rows);
+        }
+        let TT::Ident(id) = t else { continue };
+        if id != "fn" {
+            continue;
+        }
+        let Some(TT::Ident(name)) = toks.get(i + 1) else {
+            continue;
+        };
+        // look back over qualifiers and attributes
+        let mut is_unsafe = false;
+        let mut safety = false;
+        let mut j = i;
+        while j > 0 {
+            j -= 1;
+            match &toks[j] {
+                TT::Ident(q) if q == "unsafe" => is_unsafe = true,
+                TT::Ident(q) if q == "pub" || q == "const" || q == "async" || q == "extern" => {}
+                TT::Literal(_) => {} // extern "C"
+                TT::Group(g) if g.delimiter() == proc_macro2::Delimiter::Parenthesis => {} // pub(crate)
+                TT::Group(g) if g.delimiter() == proc_macro2::Delimiter::Bracket => {
+                    // attribute body: `doc = "…"`
+                    let s = g.stream().to_string();
+                    if s.starts_with("doc") && s.contains("# Safety") {
+                        safety = true;
+                    }
+                    if j > 0 {
+                        if let TT::Punct(p) = &toks[j - 1] {
+                            if p.as_char() == '#' {
+                                j -= 1;
+                                continue;
+                            }
+                        }
+                    }
+                    break;
+                }
+                _ => break,
+            }
+        }
+        let simple = name.to_string();
+        let line = name.span().start().line;
+        rows.push(FnRow {
+            name: format!("{prefix}@{line}::{simple}"),
+            name_unchecked: simple.ends_with("_unchecked"),
+            simple,
+            kind: ".macroBody",
+            is_unsafe,
+            has_safety_doc: safety,
+            ins: vec![],
+            outs: vec![],
+            outlives: vec![],
+            loc: format!("{}:{}", file.rel, line),
+            probe: Err("defined in a macro body (covered by the probe of the trait method it implements)".into()),
+            self_escape: None,
+        });
+    }
+}
+
+pub fn collect(cm: &CrateModel) -> Result<Collected, String> {
+    // ---- public traits (+ supertraits: their methods are callable on `T: PubTrait`) ----
+    let mut pub_traits: BTreeSet<usize> = BTreeSet::new();
+    for (d, def) in cm.defs.iter().enumerate() {
+        if matches!(def.kind, DefKind::Trait(_)) && def.public_path.is_some() {
+            pub_traits.insert(d);
+        }
+    }
+    loop {
+        let mut add = vec![];
+        for &d in &pub_traits {
+            if let DefKind::Trait(t) = &cm.defs[d].kind {
+                for b in &t.supertraits {
+                    if let syn::TypeParamBound::Trait(tb) = b {
+                        if let Ok((Res::Def(s), _)) = cm.resolve_syn(cm.defs[d].module, &bare_path(&tb.path)) {
+                            if matches!(cm.defs[s].kind, DefKind::Trait(_)) && !pub_traits.contains(&s) {
+                                add.push(s);
+                            }
+                        }
+                    }
+                }
+            }
+        }
+        if add.is_empty() {
+            break;
+        }
+        pub_traits.extend(add);
+    }
+    // ---- callable ADTs: nameable ones, then those leaked through callable signatures ----
+    let mut adts: BTreeSet<usize> = BTreeSet::new();
+    for (d, def) in cm.defs.iter().enumerate() {
+        if cm.is_adt(d) && def.public_path.is_some() {
+            adts.insert(d);
+        }
+    }
+    let trait_callable = |cm: &CrateModel, mi: usize, im: &syn::ItemImpl, pub_traits: &BTreeSet<usize>| -> Result<Option<bool>, String> {
+        // None = inherent; Some(true) = callable trait impl; Some(false) = private trait
+        match &im.trait_ {
+            None => Ok(None),
+            Some((_, tp, _)) => match cm.resolve_syn(mi, &bare_path(tp))? {
+                (Res::External(_), _) => Ok(Some(true)),
+                (Res::Def(t), _) => Ok(Some(pub_traits.contains(&t))),
+                (Res::Prim(_), _) => Err("trait path resolves to a primitive".into()),
+            },
+        }
+    };
+    loop {
+        let mut found: BTreeSet<usize> = BTreeSet::new();
+        for (mi, module) in cm.modules.iter().enumerate() {
+            for it in &module.items {
+                match it {
+                    syn::Item::Impl(im) => {
+                        let Some(d) = impl_self_adt(cm, mi, im) else { continue };
+                        if !adts.contains(&d) {
+                            continue;
+                        }
+                        let tc = trait_callable(cm, mi, im, &pub_traits)
+                            .map_err(|e| format!("{}: {e}", loc(module.file, im.span())))?;
+                        if tc == Some(false) {
+                            continue;
+                        }
+                        for ii in &im.items {
+                            if let syn::ImplItem::Fn(f) = ii {
+                                if !cfg_active(&f.attrs)? {
+                                    continue;
+                                }
+                                if tc.is_none() && vis_of(&f.vis) != Vis::Pub {
+                                    continue;
+                                }
+                                adts_in_sig(cm, mi, &f.sig, &mut found);
+                            }
+                        }
+                    }
+                    syn::Item::Fn(f) => {
+                        if vis_of(&f.vis) == Vis::Pub && module.public_path.is_some() {
+                            adts_in_sig(cm, mi, &f.sig, &mut found);
+                        }
+                    }
+                    _ => {}
+                }
+            }
+        }
+        let before = adts.len();
+        adts.extend(found);
+        if adts.len() == before {
+            break;
+        }
+    }
+
+    let mut rows: Vec<FnRow> = vec![];
+    let mut macro_defs: BTreeSet<String> = BTreeSet::new();
+    for module in &cm.modules {
+        for it in &module.items {
+            if let syn::Item::Macro(m) = it {
+                if let Some(id) = &m.ident {
+                    macro_defs.insert(id.to_string());
+                }
+            }
+        }
+    }
+    for (mi, module) in cm.modules.iter().enumerate() {
+        let file = module.file;
+        let mprefix = module.path.join("::");
+        for it in &module.items {
+            match it {
+                syn::Item::Fn(f) => {
+                    let d = module
+                        .defs
+                        .iter()
+                        .copied()
+                        .find(|&d| matches!(cm.defs[d].kind, DefKind::Fn(g) if std::ptr::eq(g, f)));
+                    let public = d.map_or(false, |d| cm.defs[d].public_path.is_some());
+                    if !public {
+                        continue;
+                    }
+                    let owner = Owner {
+                        prefix: mprefix.clone(),
+                        kind: ".free",
+                        generics: vec![],
+                        self_ty: None,
+                        self_syn: None,
+                        trait_path: None,
+                        is_trait_decl: false,
+                        anon_count: 0,
+                    };
+                    rows.push(make_row(cm, mi, file, &owner, &f.sig, &f.attrs)?);
+                }
+                syn::Item::Trait(t) => {
+                    let d = module
+                        .defs
+                        .iter()
+                        .copied()
+                        .find(|&d| matches!(cm.defs[d].kind, DefKind::Trait(g) if std::ptr::eq(g, t)))
+                        .ok_or("trait without a definition entry")?;
+                    if !pub_traits.contains(&d) {
+                        continue;
+                    }
+                    // the trait's own path, as a syn::Path relative to this module
+                    let tpath: syn::Path = syn::parse_str(&format!("self::{}", t.ident)).unwrap();
+                    let owner = Owner {
+                        prefix: cm.def_path(d),
+                        kind: ".traitDecl",
+                        generics: vec![&t.generics],
+                        self_ty: None,
+                        self_syn: None,
+                        trait_path: if t.generics.params.is_empty() { Some(tpath) } else { None },
+                        is_trait_decl: true,
+                        anon_count: 0,
+                    };
+                    for ti in &t.items {
+                        if let syn::TraitItem::Fn(f) = ti {
+                            if cfg_active(&f.attrs)? {
+                                rows.push(make_row(cm, mi, file, &owner, &f.sig, &f.attrs)?);
+                            }
+                        }
+                    }
+                }
+                syn::Item::Impl(im) => {
+                    let local = impl_self_adt(cm, mi, im);
+                    if let Some(d) = local {
+                        if !adts.contains(&d) {
+                            continue;
+                        }
+                    }
+                    let tc = trait_callable(cm, mi, im, &pub_traits)
+                        .map_err(|e| format!("{}: {e}", loc(file, im.span())))?;
+                    if tc == Some(false) {
+                        continue;
+                    }
+                    if local.is_none() && tc.is_none() {
+                        return Err(format!("{}: inherent impl on a foreign type", loc(file, im.span())));
+                    }
+                    // impl header
+                    let mut hcx = SigCx {
+                        cm,
+                        module: mi,
+                        file,
+                        type_params: generic_names(&im.generics).0.into_iter().collect(),
+                        self_ty: None,
+                        mode: Mode::ImplHeader,
+                        counter: 0,
+                        hrtb: vec![],
+                    };
+                    let self_rty = hcx.ty(&im.self_ty)?;
+                    let self_name = match (local, &*im.self_ty) {
+                        (Some(d), syn::Type::Path(tp)) => format!(
+                            "{}{}",
+                            cm.def_path(d),
+                            norm_tokens(&tp.path.segments.last().unwrap().arguments)
+                        ),
+                        _ => norm_tokens(&*im.self_ty),
+                    };
+                    let (prefix, kind) = match &im.trait_ {
+                        None => (cm.def_path(local.unwrap()), ".inherent"),
+                        Some((_, tp, _)) => (format!("<{} as {}>", self_name, norm_tokens(tp)), ".traitImpl"),
+                    };
+                    let owner = Owner {
+                        prefix,
+                        kind,
+                        generics: vec![&im.generics],
+                        self_ty: Some(self_rty),
+                        self_syn: Some(&im.self_ty),
+                        trait_path: im.trait_.as_ref().map(|(_, p, _)| p.clone()),
+                        is_trait_decl: false,
+                        anon_count: hcx.counter,
+                    };
+                    let _ = owner.anon_count;
+                    for ii in &im.items {
+                        if let syn::ImplItem::Fn(f) = ii {
+                            if !cfg_active(&f.attrs)? {
+                                continue;
+                            }
+                            if tc.is_none() && vis_of(&f.vis) != Vis::Pub {
+                                continue;
+                            }
+                            rows.push(make_row(cm, mi, file, &owner, &f.sig, &f.attrs)?);
+                        }
+                    }
+                }
+                syn::Item::Macro(m) => match &m.ident {
+                    Some(id) => {
+                        let prefix = if mprefix.is_empty() {
+                            format!("macro_rules {id}!")
+                        } else {
+                            format!("macro_rules {mprefix}::{id}!")
+                        };
+                        macro_rows(&prefix, file, m.mac.tokens.clone(), &mut rows);
+                    }
+                    None => {
+                        let name = m.mac.path.segments.last().map(|s| s.ident.to_string()).unwrap_or_default();
+                        if !macro_defs.contains(&name) {
+                            return Err(format!(
+                                "{}: item-position invocation of an unknown macro `{name}!`",
+                                loc(file, m.span())
+                            ));
+                        }
+                    }
+                },
+                _ => {}
+            }
+        }
+    }
+    // row names key the reviewed lists in Props/C17: they must be unique
+    let mut seen = BTreeSet::new();
+    for r in &rows {
+        if !seen.insert(r.name.clone()) {
+            return Err(format!("duplicate row name `{}` ({})", r.name, r.loc));
+        }
+    }
+    let sites = collect_sites(cm)?;
+    Ok(Collected { rows, sites })
+}
+
+// ---------------------------------------------------------------------------------------------
+// lifetime-manufacturing sites
+// ---------------------------------------------------------------------------------------------
+
+pub struct Site {
+    /// `.transmute | .fromRawParts | .refDeref | .ptrAsRef | .extendedCall`
+    pub kind: &'static str,
+    pub func: String,
+    pub fn_unsafe: bool,
+    pub in_macro: bool,
+    pub loc: String,
+}
+
+fn site_kind_of_ident(s: &str) -> Option<&'static str> {
+    if s == "transmute" || s == "transmute_copy" {
+        Some(".transmute")
+    } else if matches!(s, "from_raw_parts" | "from_raw_parts_mut" | "from_ptr_range" | "from_mut_ptr_range") {
+        Some(".fromRawParts")
+    } else if s.ends_with("_extended") {
+        Some(".extendedCall")
+    } else {
+        None
+    }
+}
+
+struct SiteV<'a> {
+    file: &'a SrcFile,
+    func: String,
+    fn_unsafe: bool,
+    unsafe_depth: usize,
+    out: &'a mut Vec<Site>,
+    err: Option<String>,
+}
+
+impl<'a> SiteV<'a> {
+    fn push(&mut self, kind: &'static str, span: proc_macro2::Span, in_macro: bool) {
+        self.out.push(Site {
+            kind,
+            func: self.func.clone(),
+            fn_unsafe: self.fn_unsafe,
+            in_macro,
+            loc: loc(self.file, span),
+        });
+    }
+    fn scan_tokens(&mut self, ts: proc_macro2::TokenStream) {
+        for t in ts {
+            match t {
+                proc_macro2::TokenTree::Group(g) => self.scan_tokens(g.stream()),
+                proc_macro2::TokenTree::Ident(i) => {
+                    if let Some(k) = site_kind_of_ident(&i.to_string()) {
+                        self.push(k, i.span(), true);
+                    }
+                }
+                _ => {}
+            }
+        }
+    }
+    fn active(&mut self, attrs: &[syn::Attribute]) -> bool {
+        match cfg_active(attrs) {
+            Ok(b) => b,
+            Err(e) => {
+                self.err.get_or_insert(e);
+                false
+            }
+        }
+    }
+}
+
+impl<'ast, 'a> Visit<'ast> for SiteV<'a> {
+    fn visit_item(&mut self, _: &'ast syn::Item) {
+        // nested items are visited on their own by `collect_sites`
+    }
+    fn visit_local(&mut self, l: &'ast syn::Local) {
+        if self.active(&l.attrs) {
+            syn::visit::visit_local(self, l);
+        }
+    }
+    fn visit_expr_block(&mut self, b: &'ast syn::ExprBlock) {
+        if self.active(&b.attrs) {
+            syn::visit::visit_expr_block(self, b);
+        }
+    }
+    fn visit_expr_unsafe(&mut self, u: &'ast syn::ExprUnsafe) {
+        if self.active(&u.attrs) {
+            self.unsafe_depth += 1;
+            syn::visit::visit_expr_unsafe(self, u);
+            self.unsafe_depth -= 1;
+        }
+    }
+    fn visit_expr_path(&mut self, p: &'ast syn::ExprPath) {
+        if let Some(last) = p.path.segments.last() {
+            if let Some(k) = site_kind_of_ident(&last.ident.to_string()) {
+                self.push(k, last.ident.span(), false);
+            }
+        }
+        syn::visit::visit_expr_path(self, p);
+    }
+    fn visit_expr_method_call(&mut self, m: &'ast syn::ExprMethodCall) {
+        let name = m.method.to_string();
+        if let Some(k) = site_kind_of_ident(&name) {
+            self.push(k, m.method.span(), false);
+        } else if matches!(name.as_str(), "as_ref" | "as_mut" | "as_uninit_ref" | "as_uninit_mut")
+            && m.args.is_empty()
+            && (self.unsafe_depth > 0 || self.fn_unsafe)
+        {
+            // `NonNull::as_ref` / `<*const T>::as_ref`: unsafe fns that pick the lifetime freely
+            // (an `AsRef::as_ref` inside an unsafe block is over-reported; it is reviewed too)
+            self.push(".ptrAsRef", m.method.span(), false);
+        }
+        syn::visit::visit_expr_method_call(self, m);
+    }
+    fn visit_expr_reference(&mut self, r: &'ast syn::ExprReference) {
+        // the borrowed place: `*p`, `(*p).field`, `(*p).a[i]` … — find the root of the place
+        let mut inner = &*r.expr;
+        loop {
+            match inner {
+                syn::Expr::Paren(p) => inner = &p.expr,
+                syn::Expr::Group(p) => inner = &p.expr,
+                syn::Expr::Field(f) => inner = &f.base,
+                syn::Expr::Index(i) => inner = &i.expr,
+                _ => break,
+            }
+        }
+        if let syn::Expr::Unary(u) = inner {
+            if matches!(u.op, syn::UnOp::Deref(_)) && (self.unsafe_depth > 0 || self.fn_unsafe) {
+                self.push(".refDeref", r.and_token.span(), false);
+            }
+        }
+        syn::visit::visit_expr_reference(self, r);
+    }
+    fn visit_macro(&mut self, m: &'ast syn::Macro) {
+        self.scan_tokens(m.tokens.clone());
+    }
+}
+
+fn collect_sites(cm: &CrateModel) -> Result<Vec<Site>, String> {
+    let mut out = vec![];
+    fn scan_fn(
+        file: &SrcFile,
+        func: String,
+        fn_unsafe: bool,
+        block: &syn::Block,
+        out: &mut Vec<Site>,
+    ) -> Result<(), String> {
+        let mut v = SiteV {
+            file,
+            func: func.clone(),
+            fn_unsafe,
+            unsafe_depth: 0,
+            out,
+            err: None,
+        };
+        v.visit_block(block);
+        if let Some(e) = v.err {
+            return Err(format!("{}: in `{func}`: {e}", file.rel));
+        }
+        // nested fns
+        for st in &block.stmts {
+            if let syn::Stmt::Item(syn::Item::Fn(f)) = st {
+                if cfg_active(&f.attrs)? {
+                    scan_fn(
+                        file,
+                        format!("{func}::{}", f.sig.ident),
+                        f.sig.unsafety.is_some(),
+                        &f.block,
+                        out,
+                    )?;
+                }
+            }
+        }
+        Ok(())
+    }
+    for (mi, module) in cm.modules.iter().enumerate() {
+        let file = module.file;
+        let mprefix = module.path.join("::");
+        let q = |s: &str| {
+            if mprefix.is_empty() {
+                s.to_string()
+            } else {
+                format!("{mprefix}::{s}")
+            }
+        };
+        for it in &module.items {
+            match it {
+                syn::Item::Fn(f) => scan_fn(
+                    file,
+                    q(&f.sig.ident.to_string()),
+                    f.sig.unsafety.is_some(),
+                    &f.block,
+                    &mut out,
+                )?,
+                syn::Item::Impl(im) => {
+                    let self_name = match impl_self_adt(cm, mi, im) {
+                        Some(d) => cm.def_path(d),
+                        None => norm_tokens(&*im.self_ty),
+                    };
+                    let prefix = match &im.trait_ {
+                        None => self_name,
+                        Some((_, tp, _)) => format!("<{} as {}>", self_name, norm_tokens(tp)),
+                    };
+                    for ii in &im.items {
+                        if let syn::ImplItem::Fn(f) = ii {
+                            if cfg_active(&f.attrs)? {
+                                scan_fn(
+                                    file,
+                                    format!("{prefix}::{}", f.sig.ident),
+                                    f.sig.unsafety.is_some(),
+                                    &f.block,
+                                    &mut out,
+                                )?;
+                            }
+                        }
+                    }
+                }
+                syn::Item::Trait(t) => {
+                    for ti in &t.items {
+                        if let syn::TraitItem::Fn(f) = ti {
+                            if let (true, Some(b)) = (cfg_active(&f.attrs)?, &f.default) {
+                                scan_fn(
+                                    file,
+                                    q(&format!("{}::{}", t.ident, f.sig.ident)),
+                                    f.sig.unsafety.is_some(),
+                                    b,
+                                    &mut out,
+                                )?;
+                            }
+                        }
+                    }
+                }
+                syn::Item::Macro(m) => {
+                    // macro_rules bodies and item-position invocations: token scan
+                    let name = match &m.ident {
+                        Some(id) => format!("macro_rules {}!", q(&id.to_string())),
+                        None => format!("{}! invocation in {}", norm_tokens(&m.mac.path), if mprefix.is_empty() { "crate" } else { &mprefix }),
+                    };
+                    let mut v = SiteV {
+                        file,
+                        func: name,
+                        fn_unsafe: false,
+                        unsafe_depth: 0,
+                        out: &mut out,
+                        err: None,
+                    };
+                    v.scan_tokens(m.mac.tokens.clone());
+                }
+                _ => {}
+            }
+        }
+    }
+    Ok(out)
+}
+
+// ---------------------------------------------------------------------------------------------
+// rendering
+// ---------------------------------------------------------------------------------------------
+
+pub const CHUNK: usize = 50;
+
+pub fn render(c: &Collected) -> String {
+    let mut o = String::from(HEADER);
+    o.push_str("-- Every function a client crate can call (see harness/src/extract/pubfns.rs for the exact\n");
+    o.push_str("-- reachability rules) with its unsafety/doc facts and lifetime skeleton, in chunks of at most\n");
+    o.push_str(&format!("-- {CHUNK} rows, and every lifetime-manufacturing site of the compiled non-test source.\n"));
+    o.push_str("import HipVerif.Model.PubFnsTy\n\nnamespace HipVerif.Gen.PubFns\nopen HipVerif.Model.PubFns\n\n");
+    let n_chunks = (c.rows.len() + CHUNK - 1) / CHUNK;
+    for k in 0..n_chunks {
+        let part = &c.rows[k * CHUNK..((k + 1) * CHUNK).min(c.rows.len())];
+        o.push_str(&format!("def pubFns_{k} : List FnSig := [\n"));
+        for (i, r) in part.iter().enumerate() {
+            let ins = r
+                .ins
+                .iter()
+                .map(|(role, reg)| format!("⟨{}, {}⟩", role.lean(), reg.lean()))
+                .collect::<Vec<_>>()
+                .join(", ");
+            let outs = r
+                .outs
+                .iter()
+                .map(|(pos, reg)| format!("⟨{}, {}⟩", pos.lean(), reg.lean()))
+                .collect::<Vec<_>>()
+                .join(", ");
+            let ol = r
+                .outlives
+                .iter()
+                .map(|(a, b)| format!("({}, {})", a.lean(), b.lean()))
+                .collect::<Vec<_>>()
+                .join(", ");
+            let owner = r.name.strip_suffix(&r.simple).and_then(|p| p.strip_suffix("::")).unwrap_or("");
+            o.push_str(&format!(
+                "  ⟨{}, {}, {}, {}, {}, {}, {}, {}, {}, [{}], [{}], [{}], {}⟩{}\n",
+                lean_string(&r.name),
+                key_of(&r.name),
+                lean_string(&r.simple),
+                key_of(&r.simple),
+                key_of(owner),
+                r.kind,
+                r.is_unsafe,
+                r.name_unchecked,
+                r.has_safety_doc,
+                ins,
+                outs,
+                ol,
+                lean_string(&r.loc),
+                if i + 1 == part.len() { "" } else { "," }
+            ));
+        }
+        o.push_str("]\n\n");
+    }
+    o.push_str("def chunks : List (List FnSig) := [");
+    o.push_str(&(0..n_chunks).map(|k| format!("pubFns_{k}")).collect::<Vec<_>>().join(", "));
+    o.push_str("]\n\ndef pubFns : List FnSig := chunks.flatten\n\n");
+    o.push_str("def sites : List Site := [\n");
+    for (i, s) in c.sites.iter().enumerate() {
+        o.push_str(&format!(
+            "  ⟨{}, {}, {}, {}, {}, {}⟩{}\n",
+            s.kind,
+            lean_string(&s.func),
+            key_of(&s.func),
+            s.fn_unsafe,
+            s.in_macro,
+            lean_string(&s.loc),
+            if i + 1 == c.sites.len() { "" } else { "," }
+        ));
+    }
+    o.push_str("]\n\nend HipVerif.Gen.PubFns\n");
+    o
+}
+
+pub fn generate(repo: &Repo) -> Result<Vec<GenFile>, String> {
+    let cm = CrateModel::build(repo)?;
+    let c = collect(&cm)?;
+    if c.rows.len() < 100 {
+        return Err(format!("only {} callable functions found — reachability broken?", c.rows.len()));
+    }
+    Ok(vec![GenFile {
+        name: "PubFns.lean".into(),
+        content: render(&c),
+    }])
 }
